@@ -11,31 +11,42 @@ import (
 // Content samples per extension: valid documents with something to minify, documents the
 // library rejects, empty files and files larger than one copy buffer (32 KiB).
 var goodContent = map[string][]string{
-	"css":  {"a { color : red ; }\n", "/* c */ .x > p { margin : 0px ; padding : 1.0em }\n@media screen { b { top : 0 } }\n"},
-	"js":   {"var x = 1 + 2 ;\nconsole.log( x ) ;\n", "function f ( a , b ) { return a + b }\nf( 1 , 2 )\n", "let s = 'x' // end"},
-	"mjs":  {"export default function ( a ) { return a * 2 }\n"},
-	"html": {"<p> hi </p>\n", "<!DOCTYPE html><html><head><style> a { b : c } </style></head><body><script> var q = 1 ; </script><p>  t  </p></body></html>\n"},
-	"htm":  {"<div>  a  <b> c </b></div>\n"},
-	"json": {"{ \"a\" : [ 1 , 2.0 , 3 ] }\n", "[ true , null ]\n"},
-	"svg":  {"<svg xmlns=\"http://www.w3.org/2000/svg\">  <path d=\"M 10 10 L 20 20\"/>  </svg>\n"},
-	"xml":  {"<?xml version=\"1.0\"?>\n<a>  <b c = \"d\"> t </b>  </a>\n"},
-	"txt":  {"plain  text  file\n"},
-	"md":   {"# title\n\n text \n"},
-	"scss": {"a { b : c ; }\n"},
-	"":     {"no extension\n"},
+	"css": {"a { color : red ; }\n", "/* c */ .x > p { margin : 0px ; padding : 1.0em }\n@media screen { b { top : 0 } }\n"},
+	"js":  {"var x = 1 + 2 ;\nconsole.log( x ) ;\n", "function f ( a , b ) { return a + b }\nf( 1 , 2 )\n", "let s = 'x' // end"},
+	"mjs": {"export default function ( a ) { return a * 2 }\n"},
+	"html": {"<p> hi </p>\n", "<!DOCTYPE html><html><head><style> a { b : c } </style></head><body><script> var q = 1 ; </script><p>  t  </p></body></html>\n",
+		"<!-- note --><ul><li class=\"a b\"> one </li><li id=\"x\"> two </li></ul><p title=\"t\">  spaced   text  </p>\n"},
+	"tmpl":       {"<!-- c --><p title=\"x\">  {{ .Name }}  </p><ul><li> a </li></ul>\n"},
+	"gohtml":     {"<div id=\"d\">  {{ range .Items }} <b> {{ . }} </b> {{ end }}  </div><!-- c -->\n"},
+	"mustache":   {"<p class=\"k\">  {{ name }}  </p><!-- c --><ol><li> x </li></ol>\n"},
+	"handlebars": {"<p>  {{#if a}} yes {{/if}}  </p><!-- c -->\n"},
+	"php":        {"<!-- c --><p title=\"x\">  <?php echo 1 ; ?>  </p><ul><li> a </li></ul>\n"},
+	"asp":        {"<p title=\"x\">  <% x %>  </p><!-- c --><ul><li> a </li></ul>\n"},
+	"ejs":        {"<p title=\"x\">  <%= x %>  </p><!-- c -->\n"},
+	"htm":        {"<div>  a  <b> c </b></div>\n"},
+	"json":       {"{ \"a\" : [ 1 , 2.0 , 3 ] }\n", "[ true , null ]\n"},
+	"svg":        {"<svg xmlns=\"http://www.w3.org/2000/svg\">  <path d=\"M 10 10 L 20 20\"/>  </svg>\n"},
+	"xml":        {"<?xml version=\"1.0\"?>\n<a>  <b c = \"d\"> t </b>  </a>\n"},
+	"txt":        {"plain  text  file\n"},
+	"md":         {"# title\n\n text \n"},
+	"scss":       {"a { b : c ; }\n"},
+	"":           {"no extension\n"},
 }
 
 var badContent = map[string][]string{
-	"js":   {"var x = ;\n", "function ( {\n"},
+	// several of these make the minifier rewrite part of its input before it fails
+	"js":   {"var x = ;\n", "function ( {\n", "var big = 1000000.0 ; var y = ;\n"},
 	"mjs":  {"export = ;\n"},
-	"json": {"{ \"a\" : , }\n"},
+	"json": {"{ \"a\" : , }\n", "{ \"a\" : 1000.0 , \"b\" : 0.50 , \"c\" : }\n"},
 	"css":  {}, // the CSS minifier accepts anything
-	"html": {"<p>x</p><script>var a = ;</script>\n"},
-	"svg":  {"<svg><style> a { b : ( } </style><![CDATA[ x"},
+	"html": {"<p>x</p><script>var a = ;</script>\n", "<DIV CLASS=\"A\">  Upper   Case  </DIV><P>x</P><script>var a = ;</script>\n"},
+	"tmpl": {"<DIV>  {{ .X }}  </DIV><script>var a = ;</script>\n"},
+	"php":  {"<DIV>  <?php 1 ?>  </DIV><script>var a = ;</script>\n"},
+	"svg":  {"<svg><style> a { b : ( } </style><![CDATA[ x", "<SVG WIDTH=\"10.00\"><path d=\"M 10.0 10.0 L 20.50 20.50\"/><style> a { b : ( } </style></SVG>"},
 	"xml":  {},
 }
 
-var minifiableExts = []string{"css", "js", "html", "json", "svg", "xml", "mjs", "htm"}
+var minifiableExts = []string{"css", "js", "html", "json", "svg", "xml", "mjs", "htm", "tmpl", "php", "asp", "gohtml", "mustache", "handlebars", "ejs"}
 var otherExts = []string{"txt", "md", ""}
 
 // Content draws a file body for ext. kind: 0 good, 1 rejected by the library (when the type
